@@ -1,6 +1,7 @@
 import QV.Drive.Util
 import QV.Model.Ast2Ast
 import QV.Model.SemSrc
+import QV.Model.Frag
 import QV.Drive.C01
 /-! JSON handler of `c01.ast2ast`: the source statement tree (CPython `ast`, before any pass) to the tree
 the model of `qlasskit.ast2ast.ast2ast` produces, in the same serialisation the harness gives the tree
@@ -115,10 +116,42 @@ def ast2astOp (j : Json) : R Json := do
       | k => k.getNat?.toOption
     return (← p[0]!.getStr?, ar)
   let body ← (← (← j.getObjVal? "body").getArr?).toList.mapM parseS
+  -- which theorems of QV/Props/C01.lean cover this program (typed arguments `targs` / `ret` when the harness has them)
+  let typed : Option (List (String × Front.Ty) × Front.Ty) :=
+    match j.getObjVal? "targs", j.getObjVal? "ret" with
+    | .ok ta, .ok r =>
+      match (do
+        let l ← (← ta.getArr?).toList.mapM fun e => do
+          let p ← e.getArr?
+          return (← p[0]!.getStr?, ← QV.Drive.C01.parseTy p[1]!)
+        let rt ← QV.Drive.C01.parseTy r
+        pure (l, rt) : R _) with
+      | .ok x => some x
+      | .error _ => none
+    | _, _ => none
   match ast2ast args body with
   | .ok (out, rules) =>
-    pure (Json.mkObj [("body", arr (out.map sJ)), ("front", arr (out.map fun s => stmtJ (toStmt s))),
-      ("rules", arr (rules.map Json.str))])
+    let cls : List (String × Json) :=
+      match typed with
+      | none => []
+      | some (targs, ret) =>
+        let sp : SProg := ⟨targs, ret, body⟩
+        let q : Front.Prog := ⟨targs, ret, out.map toStmt⟩
+        -- the hypotheses of `C01_if` / `C01_for` other than acceptance by `translate`
+        let stable := (match rejectReserved (args.map (·.1)) body with | .ok _ => true | .error _ => false)
+          && (match foldSs body with | .ok b => b == body | .error _ => false)
+          && (match mtSs body with | .ok b => b == body | .error _ => false)
+          && (match (rwSs [] body).run (initSt (aargsOf sp)) with
+              | .ok (l, _) => l == out && (match foldSs l with | .ok l' => l' == l | .error _ => false)
+              | .error _ => false)
+        [("class", Json.mkObj [
+          ("okProg", Json.bool (okProg sp)),
+          ("hasIf", Json.bool (hasIfs body)), ("hasFor", Json.bool (hasFors body)),
+          ("stable", Json.bool stable),
+          ("guardedLine", Json.bool (QV.Sem.guardedLine q)),
+          ("straightLine", Json.bool (QV.Sem.straightLine q))])]
+    pure (Json.mkObj ([("body", arr (out.map sJ)), ("front", arr (out.map fun s => stmtJ (toStmt s))),
+      ("rules", arr (rules.map Json.str))] ++ cls))
   | .error (.exc ty key) => pure (Json.mkObj [("exception", arr [Json.str ty, Json.str key])])
   | .error (.outside why) => pure (Json.mkObj [("outside", Json.str why)])
 
